@@ -769,17 +769,8 @@ var rR13 = RuleRef{Name: "R13", Doc: "reply-kind provenance: line-framed reply c
 		for _, b := range fn.Blocks {
 			for _, in := range b.Instrs {
 				// header: some strconv formatting of len(r.data); payload: r.data used as data (not only len / nil test)
-				if call, ok := in.(*ssa.Call); ok {
-					if cf := callee(call); cf != nil && cf.Pkg != nil && cf.Pkg.Pkg.Path() == "strconv" {
-						for _, arg := range call.Call.Args {
-							if cv, ok := arg.(*ssa.Convert); ok {
-								arg = cv.X
-							}
-							if ln, ok := isBuiltinCall(arg, "len"); ok && canon(ln.Call.Args[0]) == "recv.data" {
-								hdr = true
-							}
-						}
-					}
+				if call, ok := in.(*ssa.Call); ok && formatsLenOf(call, "recv.data", 0) {
+					hdr = true
 				}
 				var rands [8]*ssa.Value
 				for _, op := range in.Operands(rands[:0]) {
@@ -813,16 +804,9 @@ var rR13 = RuleRef{Name: "R13", Doc: "reply-kind provenance: line-framed reply c
 			for _, in := range b.Instrs {
 				switch x := in.(type) {
 				case *ssa.Call:
-					if cf := callee(x); cf != nil && cf.Pkg != nil && cf.Pkg.Pkg.Path() == "strconv" {
-						// Itoa/FormatInt(n), AppendInt(buf, n, 10)
-						for _, arg := range x.Call.Args {
-							if cv, ok := arg.(*ssa.Convert); ok {
-								arg = cv.X
-							}
-							if ln, ok := isBuiltinCall(arg, "len"); ok && canon(ln.Call.Args[0]) == "recv.data" {
-								hdr = true
-							}
-						}
+					// Itoa/FormatInt(n), AppendInt(buf, n, 10), or a first-party helper that formats the number it is given
+					if formatsLenOf(x, "recv.data", 0) {
+						hdr = true
 					}
 					if x.Call.IsInvoke() && x.Call.Method.Name() == "ToBytes" {
 						// element being encoded must be an element of r.data
@@ -1033,3 +1017,70 @@ var rR7 = RuleRef{Name: "R7", Doc: "every path of every registered executor retu
 }}
 
 var _ = constant.MakeBool
+
+// formatsLenOf: call hands len(<what>) (possibly converted) to a strconv formatter, directly or through a first-party
+// helper that passes the parameter on to one (appendHeader(buf, '$', int64(len(r.data)))).
+func formatsLenOf(call *ssa.Call, what string, depth int) bool {
+	cf := callee(call)
+	if cf == nil || cf.Pkg == nil {
+		return false
+	}
+	for i, arg := range call.Call.Args {
+		for {
+			if cv, ok := arg.(*ssa.Convert); ok {
+				arg = cv.X
+				continue
+			}
+			break
+		}
+		ln, ok := isBuiltinCall(arg, "len")
+		if !ok || canon(ln.Call.Args[0]) != what {
+			continue
+		}
+		if cf.Pkg.Pkg.Path() == "strconv" {
+			return true
+		}
+		if firstParty(cf) && cf.Blocks != nil && i < len(cf.Params) && depth < 2 && paramReachesFormatter(cf, cf.Params[i], depth) {
+			return true
+		}
+	}
+	return false
+}
+
+func paramReachesFormatter(fn *ssa.Function, prm ssa.Value, depth int) bool {
+	seen := map[ssa.Value]bool{}
+	var walk func(v ssa.Value) bool
+	walk = func(v ssa.Value) bool {
+		if seen[v] || v.Referrers() == nil {
+			return false
+		}
+		seen[v] = true
+		for _, r := range *v.Referrers() {
+			switch x := r.(type) {
+			case *ssa.Convert:
+				if walk(x) {
+					return true
+				}
+			case *ssa.Phi:
+				if walk(x) {
+					return true
+				}
+			case *ssa.Call:
+				if cf := callee(x); cf != nil && cf.Pkg != nil {
+					if cf.Pkg.Pkg.Path() == "strconv" {
+						return true
+					}
+					if firstParty(cf) && cf.Blocks != nil && depth < 2 {
+						for i, a := range x.Call.Args {
+							if a == v && i < len(cf.Params) && paramReachesFormatter(cf, cf.Params[i], depth+1) {
+								return true
+							}
+						}
+					}
+				}
+			}
+		}
+		return false
+	}
+	return walk(prm)
+}
